@@ -6,6 +6,7 @@ import (
 	"encoding/json"
 	"flag"
 	"fmt"
+	"math/rand"
 	"os"
 	"os/exec"
 	"sort"
@@ -98,6 +99,7 @@ func replayCLI(args []string) error {
 	defer os.RemoveAll(dir)
 	rep := &vx.Report{}
 	n := 0
+	vrng := rand.New(rand.NewSource(int64(*stride) + 17)) // which cases run with -v: independent of the enumeration order
 	err := vx.ReadLines(*in, func(line []byte) error {
 		var c cliCase
 		if err := json.Unmarshal(line, &c); err != nil {
@@ -152,7 +154,11 @@ func replayCLI(args []string) error {
 			}
 		}
 		preHash := vx.FileHash(outPath)
+		// the global flag -v only adds progress messages: every other executed case runs with it, spelled both ways
 		argv := []string{"create", "-o", outPath}
+		if vrng.Intn(2) == 1 {
+			argv = []string{[]string{"-v", "--verbose"}[vrng.Intn(2)], "create", "-o", outPath}
+		}
 		if c.Big {
 			argv = append(argv, "-b")
 		}
